@@ -388,15 +388,120 @@ func usesImplicit(info *types.Info, e ast.Expr, cc *ast.CaseClause) bool {
 	return mentionsObj(info, e, imp)
 }
 
+// mentionsObj reports whether e uses o, directly or through plain locals that are defined exactly
+// once from an expression using o (`tip := blockLink.Cid` … `Write(ctx, tip, …)`), up to three steps.
 func mentionsObj(info *types.Info, e ast.Expr, o types.Object) bool {
+	return mentionsObjDepth(info, e, o, 0)
+}
+
+func mentionsObjDepth(info *types.Info, e ast.Node, o types.Object, depth int) bool {
 	found := false
 	ast.Inspect(e, func(n ast.Node) bool {
-		if id, ok := n.(*ast.Ident); ok && info.Uses[id] == o {
+		id, ok := n.(*ast.Ident)
+		if !ok || found {
+			return !found
+		}
+		u := info.Uses[id]
+		if u == o {
 			found = true
+			return false
+		}
+		if depth < 3 && u != nil {
+			if rhs := singleLocalDef(u); rhs != nil && mentionsObjDepth(info, rhs, o, depth+1) {
+				found = true
+			}
 		}
 		return true
 	})
 	return found
+}
+
+var (
+	localDefProg *eng.Program
+	localDefIdx  map[types.Object]ast.Expr
+)
+
+// UseProgram tells the helpers which loaded program local definitions are looked up in.
+func UseProgram(p *eng.Program) {
+	if localDefProg != p {
+		localDefProg, localDefIdx = p, nil
+	}
+}
+
+// singleLocalDef: the defining expression of a function-local variable that is assigned exactly once
+// (one-to-one `v := expr` / `var v = expr`), is not a range/loop variable, and whose address is not
+// taken; nil otherwise.
+func singleLocalDef(o types.Object) ast.Expr {
+	v, ok := o.(*types.Var)
+	if !ok || v.IsField() || localDefProg == nil || v.Pkg() == nil || v.Parent() == v.Pkg().Scope() {
+		return nil
+	}
+	if localDefIdx == nil {
+		localDefIdx = map[types.Object]ast.Expr{}
+		cnt := map[types.Object]int{}
+		for _, pk := range localDefProg.Pkgs {
+			info := pk.TypesInfo
+			obj := func(e ast.Expr) types.Object {
+				if id, ok := ast.Unparen(e).(*ast.Ident); ok {
+					return info.ObjectOf(id)
+				}
+				return nil
+			}
+			for _, f := range pk.Syntax {
+				ast.Inspect(f, func(n ast.Node) bool {
+					switch x := n.(type) {
+					case *ast.AssignStmt:
+						for i, l := range x.Lhs {
+							if lo := obj(l); lo != nil {
+								cnt[lo]++
+								if len(x.Lhs) == len(x.Rhs) && x.Tok != token.ADD_ASSIGN {
+									localDefIdx[lo] = x.Rhs[i]
+								} else {
+									cnt[lo]++
+								}
+							}
+						}
+					case *ast.ValueSpec:
+						for i, nm := range x.Names {
+							if lo := info.Defs[nm]; lo != nil {
+								cnt[lo]++
+								if len(x.Values) == len(x.Names) {
+									localDefIdx[lo] = x.Values[i]
+								} else {
+									cnt[lo]++
+								}
+							}
+						}
+					case *ast.RangeStmt:
+						for _, l := range []ast.Expr{x.Key, x.Value} {
+							if l != nil {
+								if lo := obj(l); lo != nil {
+									cnt[lo] += 2
+								}
+							}
+						}
+					case *ast.IncDecStmt:
+						if lo := obj(x.X); lo != nil {
+							cnt[lo] += 2
+						}
+					case *ast.UnaryExpr:
+						if x.Op == token.AND {
+							if lo := obj(x.X); lo != nil {
+								cnt[lo] += 2
+							}
+						}
+					}
+					return true
+				})
+			}
+		}
+		for o, n := range cnt {
+			if n != 1 {
+				delete(localDefIdx, o)
+			}
+		}
+	}
+	return localDefIdx[o]
 }
 
 func paramObjs(info *types.Info, fd *ast.FuncDecl) []types.Object {
